@@ -108,6 +108,7 @@ fn main() {
     sigs::gen_impl_methods(&files, &mut g);
     sigs::gen_impl_bounds(&files, &mut g);
     sigs::gen_trait_headers(&files, &mut g);
+    sigs::gen_fn_sigs(&files, &mut g);
     sigs::gen_thin_bodies(&files, &mut g);
     sigs::gen_small_bodies(&files, &mut g);
     write_out(out, "GenSigs.v", &g);
